@@ -287,6 +287,13 @@ func (entry *localFileEntry) Create(targetState FileState, size int64) error {
 		return err
 	}
 
+	// Metadata found next to a data file that does not exist yet belongs to an earlier incarnation
+	// of the entry whose removal was cut short (a crash inside Delete or Move). It describes a file
+	// that is gone: drop it before the new file appears, so that it can never be paired with it.
+	if err := removeLeftoverMetadata(filepath.Dir(targetPath)); err != nil {
+		return err
+	}
+
 	// Create file.
 	f, err := os.Create(targetPath)
 	if err != nil {
@@ -306,6 +313,28 @@ func (entry *localFileEntry) Create(targetState FileState, size int64) error {
 	}
 
 	return f.Close()
+}
+
+// removeLeftoverMetadata removes the metadata files of dir, except the last access time (which the
+// file map sets before the entry's data file is created).
+func removeLeftoverMetadata(dir string) error {
+	files, err := os.ReadDir(dir)
+	if err != nil {
+		return err
+	}
+	lat := (&metadata.LastAccessTime{}).GetSuffix()
+	for _, f := range files {
+		if f.IsDir() || f.Name() == DefaultDataFileName || f.Name() == lat {
+			continue
+		}
+		if metadata.CreateFromSuffix(f.Name()) == nil {
+			continue
+		}
+		if err := os.Remove(filepath.Join(dir, f.Name())); err != nil && !os.IsNotExist(err) {
+			return err
+		}
+	}
+	return nil
 }
 
 // Reload tries to reload a file that doesn't exist in memory from disk.
